@@ -82,9 +82,9 @@ PROPS = {
     },
     "C07": {
         "file": "C07.v",
-        "streams": [S("qc", 150, 3000, timeout=2400), S("ql", 100, 2000), S("conc", 24, 400, timeout=2400, race=True), S("cb", 20, 100)],
+        "streams": [S("qc", 150, 3000, timeout=2400), S("ql", 100, 2000), S("conc", 24, 400, timeout=2400, race=True), S("cb", 20, 100), S("nl", 100, 2000)],
         "claim": "Theorems over QueueLts for every ring size >= 2, batch >= 1, thread mix, schedule and select choice: the lock discipline (a thread blocked on the drain token holds nothing; blocked on the shard lock it holds at most the token; blocked on a channel or workers.Wait it holds nothing; every inline path uses TryLock and is always enabled), no lost wake-up (a published command at tail with a free token on an open cache always has a pending wake token, an active worker section or a producer about to signal), the coalescing flag is sound, progress (whenever work is ready a responsible thread is enabled), the repaired synchronous writer's wait depends only on never-blocked producer steps, Close's broadcast enables every producer blocked on a full ring, Close waits for the workers; MutexAtomicity: the two-lock order is deadlock free for arbitrary scripts; CallbackProofs: callbacks run with no lock held. Tied to /repo by the ql/qc lock-step streams (every step of random schedules compared, enabledness computed from the real state, a deadlock monitor at schedule end), the conc stream (every public call under a 15 s watchdog in stress with back-pressure rings of 2, concurrent Sync/Clear/Close, re-entrant listeners and callbacks; Close races counting goroutines), and the cb stream (callbacks re-entering the cache).",
-        "note": "Trusted: Coq kernel, extraction, driver, harness, scheduler hooks. Liveness is proved as enabledness (some responsible thread can always step); 'bounded time' additionally needs the Go scheduler's fairness and is observed only through watchdogs. Removal listeners re-entering the cache are covered by the conc stream, not by a theorem, except for the known finding F7 (a listener that calls Close never returns), which the check reports as KNOWN-FINDING.",
+        "note": "Trusted: Coq kernel, extraction, driver, harness, scheduler hooks. Liveness is proved as enabledness (some responsible thread can always step); 'bounded time' additionally needs the Go scheduler's fairness and is observed only through watchdogs. Removal listeners re-entering the cache: NotifierProofs shows they run with no shard lock held and that what they stage is delivered; the known finding F7 (a listener that calls Close never returns), which the check reports as KNOWN-FINDING.",
         "assumptions": ["Go scheduler fairness for the step from 'enabled' to 'returns in bounded time'", "atomics and channel operations are single sequentially consistent steps"],
     },
     "C08": {
